@@ -58,8 +58,9 @@ theorem checkHitRow_eq (eqv : Nat → Nat → Bool) (p t : List Nat) (k : Nat) (
 = diagonal − 1, the `mv` bit of the left column), else Match — to the Sellers matrix.  For every end position it yields a
 start and a path that the acceptance test accepts: the path consumes exactly the pattern and `t[start..stop]`, labels
 Match/Subst correctly and has exactly `D[stop−1]` non-match operations.  (The reconstruction of the three neighbouring
-values from the stored `Pv/Mv` words — `adjust_dist`, `adjust_by_mask`, the ring buffer — is not modelled; that part stays
-sampled.  The driver compares the model's prediction with every path the implementation returns: tag `tb-model-same`.) -/
+values from the stored `Pv/Mv` words — `adjust_dist`, `adjust_by_mask`, the ring buffer — is the subject of the phase-2
+theorems below for the single-word version; for the block-based version it stays sampled.  The driver compares the
+model's prediction with every path the implementation returns: tag `tb-model-same`.) -/
 theorem traceback_rule_sound (eqv : Nat → Nat → Bool) (p t : List Nat) (k stop : Nat) (h1 : 1 ≤ stop)
     (hs : stop ≤ t.length) (d : Nat) (hd : (lastRow (unitW eqv) p t)[stop - 1]? = some d) (hk : d ≤ k) :
     checkHit eqv p t k ⟨(RbV.Model.MyersTraceback.traceback (unitW eqv) p t stop).1, stop, d,
